@@ -9,7 +9,7 @@ STORE_FAMILIES = {
     "C01": ["pos", "buf", "bufedge", "fleet", "slot", "cbelt"], "C02": ["pos", "buf", "bufedge", "fleet", "slot", "cbelt"],
     "C03": ["bufedge", "fleet", "slot", "cbelt"],      # the edge half of factory-wide conservation (EdgeOK in Spec/Compose.lean)
     "C04": ["pos", "buf", "bufedge", "fleet", "slot", "cbelt"],
-    "C05": ["pos", "buf", "prq"], "C06": ["pos", "buf", "bufedge", "fleet", "slot", "cbelt"],
+    "C05": ["pos", "buf", "prq", "bufedge", "fleet", "slot", "cbelt"], "C06": ["pos", "buf", "bufedge", "fleet", "slot", "cbelt"],
     "C07": ["pos", "buf", "bufedge", "fleet", "slot", "cbelt"],
     "C10": ["pos", "buf"], "C11": ["bufedge", "buf", "fleet"], "C12": ["slot", "cbelt"], "C13": ["slot", "cbelt"], "C14": ["fleet"],
     "C18": ["pos", "bufedge", "fleet", "slot", "cbelt"], "C19": ["pos", "buf"],
@@ -135,9 +135,16 @@ def config_stage(pid, tier, seed, cov, violations, known_hits=None):
         violations.append((path, "no-failing-input-found"))
     elif bad:
         c, real, model = bad[0]
-        path = checklib.write_replay(pid, seed, "config", None, None, dict(config_kinds=c, observed=real, expected=model,
+        path = checklib.write_replay(pid, seed, "config", None, None, dict(config_kinds=c, concrete_values=repr(cf.concrete(c)), observed=real, expected=model,
                                      message="an invalid configuration is simulated instead of being rejected"))
-        violations.append((path, f"invalid configuration {dict((k, v) for k, v in c.items() if cf.DEFAULT[k] != v)} was not rejected: {real}"))
+        violations.append((path, f"invalid configuration {dict((k, v) for k, v in c.items() if cf.DEFAULT.get(k) != v)} (values {cf.concrete(c)}) was not rejected: {real}"))
+    elif [d for d in r["divergences"] if not invalid(d[0]) and d[1] != "ok"]:
+        # a configuration inside the documented domains (the property's own list of invalid ones does not cover it) that does
+        # not run: rejected at construction / start, crashed, or never gets past one instant
+        c, real, model = [d for d in r["divergences"] if not invalid(d[0]) and d[1] != "ok"][0]
+        path = checklib.write_replay(pid, seed, "config", None, None, dict(config_kinds=c, concrete_values=repr(cf.concrete(c)), observed=real, expected=model,
+                                     message="a valid configuration does not run to completion"))
+        violations.append((path, f"valid configuration {dict((k, v) for k, v in c.items() if cf.DEFAULT.get(k) != v)} (values {cf.concrete(c)}) does not run to completion: {real}"))
     elif r["divergences"]:
         c, real, model = r["divergences"][0]
         path = checklib.write_replay(pid, seed, "config-divergence", None, None, dict(facet="validate", config_kinds=c, implementation=real, model=model,
